@@ -227,7 +227,10 @@ impl C03 {
                 // reference: the single-threaded writer fed the same history at the same level
                 let reference = match c01::run_history(*level, &data, ops, c01::End::Finish, WritePlan::plain()) {
                     Ok(r) => r.sink,
-                    Err((c, m)) => panic!("harness: single-threaded reference failed: {c}: {m}"),
+                    Err(_) => {
+                        stats.probe("workload_unbuildable", 1);
+                        return RunOut { violation: None, decisions: Vec::new(), sink_calls: 0 };
+                    }
                 };
                 let n_blocks = walk(&reference).map(|w| w.members.len()).unwrap_or(1) as u64;
                 let wp = match &p.fault {
@@ -299,7 +302,10 @@ impl C03 {
             Scenario::Reader { layout, ops, finish } => {
                 let built = match c02::build_layout(layout) {
                     Ok(b) => b,
-                    Err(e) => panic!("harness: layout does not build: {e}"),
+                    Err(_) => {
+                        stats.probe("workload_unbuildable", 1);
+                        return RunOut { violation: None, decisions: Vec::new(), sink_calls: 0 };
+                    }
                 };
                 let mut file = built.file.clone();
                 let mut corrupted_from: Option<(u64, u64)> = None; // flat range that must not be delivered
@@ -324,6 +330,14 @@ impl C03 {
                                 _ => file[e - 4] ^= 0x01,       // ISIZE
                             }
                             corrupted_from = Some((m.ustart, m.ustart + m.ulen));
+                            // a flipped bit in deflate data can yield another valid encoding of the
+                            // same bytes (e.g. a match distance inside a run of zeros): if the
+                            // independent walker still accepts the file with identical content, the
+                            // block is not corrupt and nothing is forbidden
+                            if walk(&file).map(|w| w.data == built.flat.data).unwrap_or(false) {
+                                corrupted_from = None;
+                                stats.probe("corruption_ineffective_same_content", 1);
+                            }
                         }
                     }
                     _ => {}
